@@ -23,3 +23,7 @@ Definition lax (c : run7) : run7 :=
 (* the results of the per-file parser on the selected files *)
 Definition file_results (c : run7) (files : list (list (list N) * list N)) : res (list (list jtxn)) :=
   mapM (fun f => parse_file (rc_journal (r7_base c)) (snd f)) (selected7 c files).
+
+(* the syntax-level transactions (grammar only) of the selected files *)
+Definition file_ptxns (c : run7) (files : list (list (list N) * list N)) : res (list (list ptxn)) :=
+  mapM (fun f => parse_journal (rc_journal (r7_base c)) (snd f)) (selected7 c files).
